@@ -7,31 +7,17 @@ Set Printing Width 100000000.
 Set Printing Depth 100000000.
 Fixpoint bs (l : list nat) : string := match l with [] => EmptyString | n :: r => String (Ascii.ascii_of_nat n) (bs r) end.
 Definition T_ (b : bool) : string := if b then "T" else "F".
-Definition t192 : pt := (mkPacket (mkPtok 1 "options" 1 0 0) (Some (mkPtok 3 "}" 48 0 146)) [(DOption (mkOptionDef (mkSpan (mkPtok 1 "options" 1 0 0) (mkPtok 3 "}" 5 0 13)) (mkPtok 1 "options" 1 0 0) (mkPtok 2 "{" 1 8 1) [(mkOptionDecl (mkSpan (mkPtok 42 "LittleEndian" 2 4 2) (mkPtok 10 "true" 2 19 4)) (mkPtok 42 "LittleEndian" 2 4 2) (mkPtok 4 "=" 2 17 3) (VTrue (mkSpan (mkPtok 10 "true" 2 19 4) (mkPtok 10 "true" 2 19 4)) (mkPtok 10 "true" 2 19 4)) None); (mkOptionDecl (mkSpan (mkPtok 42 "GoModule" 3 4 5) (mkPtok 41 ";" 3 35 8)) (mkPtok 42 "GoModule" 3 4 5) (mkPtok 4 "=" 3 13 6) (VString (mkSpan (mkPtok 31 """example.com/proto""" 3 15 7) (mkPtok 31 """example.com/proto""" 3 15 7)) (mkPtok 31 """example.com/proto""" 3 15 7)) (Some (mkPtok 41 ";" 3 35 8))); (mkOptionDecl (mkSpan (mkPtok 42 "JavaPackage" 4 4 9) (mkPtok 41 ";" 4 22 12)) (mkPtok 42 "JavaPackage" 4 4 9) (mkPtok 4 "=" 4 16 10) (VString (mkSpan (mkPtok 31 """p""" 4 18 11) (mkPtok 31 """p""" 4 18 11)) (mkPtok 31 """p""" 4 18 11)) (Some (mkPtok 41 ";" 4 22 12)))] (mkPtok 3 "}" 5 0 13))); (DPacket (mkPacketDef (mkSpan (mkPtok 34 "root" 6 0 14) (mkPtok 3 "}" 17 0 57)) (Some (mkPtok 34 "root" 6 0 14)) (mkPtok 35 "packet" 6 5 15) (mkPtok 42 "Trade" 6 12 16) (mkPtok 2 "{" 6 18 17) [(mkFieldWithAttr (mkSpan (mkPtok 42 "BodyLength" 7 4 18) (mkPtok 40 "," 7 37 22)) [] (LengthField (mkSpan (mkPtok 42 "BodyLength" 7 4 18) (mkPtok 40 "," 7 37 22)) (mkLengthFieldDecl (mkSpan (mkPtok 42 "BodyLength" 7 4 18) (mkPtok 40 "," 7 37 22)) None (mkPtok 42 "BodyLength" 7 4 18) (mkLengthOf (mkSpan (mkPtok 7 "@lengthOf(" 7 15 19) (mkPtok 6 ")" 7 35 21)) (mkPtok 7 "@lengthOf(" 7 15 19) (mkPtok 42 "msg_type" 7 26 20) (mkPtok 6 ")" 7 35 21)) None (mkPtok 40 "," 7 37 22)))); (mkFieldWithAttr (mkSpan (mkPtok 25 "int16" 8 4 23) (mkPtok 40 "," 8 12 25)) [] (MetaField (mkSpan (mkPtok 25 "int16" 8 4 23) (mkPtok 40 "," 8 12 25)) None (mkMetaDecl (mkSpan (mkPtok 25 "int16" 8 4 23) (mkPtok 40 "," 8 12 25)) (TyBasic (mkSpan (mkPtok 25 "int16" 8 4 23) (mkPtok 25 "int16" 8 4 23)) (mkBasicType (mkSpan (mkPtok 25 "int16" 8 4 23) (mkPtok 25 "int16" 8 4 23)) (mkPtok 25 "int16" 8 4 23))) (mkPtok 42 "b" 8 10 24) None (mkPtok 40 "," 8 12 25)))); (mkFieldWithAttr (mkSpan (mkPtok 20 "u8" 9 4 26) (mkPtok 40 "," 9 16 28)) [] (MetaField (mkSpan (mkPtok 20 "u8" 9 4 26) (mkPtok 40 "," 9 16 28)) None (mkMetaDecl (mkSpan (mkPtok 20 "u8" 9 4 26) (mkPtok 40 "," 9 16 28)) (TyBasic (mkSpan (mkPtok 20 "u8" 9 4 26) (mkPtok 20 "u8" 9 4 26)) (mkBasicType (mkSpan (mkPtok 20 "u8" 9 4 26) (mkPtok 20 "u8" 9 4 26)) (mkPtok 20 "u8" 9 4 26))) (mkPtok 42 "msg_type" 9 7 27) None (mkPtok 40 "," 9 16 28)))); (mkFieldWithAttr (mkSpan (mkPtok 38 "match" 10 4 29) (mkPtok 40 "," 15 6 50)) [] (MatchField (mkSpan (mkPtok 38 "match" 10 4 29) (mkPtok 40 "," 15 6 50)) (mkMatchFieldDecl (mkSpan (mkPtok 38 "match" 10 4 29) (mkPtok 3 "}" 15 4 49)) (mkPtok 38 "match" 10 4 29) (mkPtok 42 "msg_type" 10 10 30) (mkPtok 17 "as" 10 19 31) (mkPtok 42 "Data" 10 22 32) (mkPtok 2 "{" 10 27 33) [(mkMatchPair (mkSpan (mkPtok 30 "13" 11 8 34) (mkPtok 42 "Cancel" 11 13 36)) (MKDigits (mkPtok 30 "13" 11 8 34)) (mkPtok 39 ":" 11 11 35) (mkPtok 42 "Cancel" 11 13 36) None); (mkMatchPair (mkSpan (mkPtok 30 "3" 12 8 37) (mkPtok 40 "," 12 19 40)) (MKDigits (mkPtok 30 "3" 12 8 37)) (mkPtok 39 ":" 12 10 38) (mkPtok 42 "Cancel" 12 12 39) (Some (mkPtok 40 "," 12 19 40))); (mkMatchPair (mkSpan (mkPtok 30 "21" 13 8 41) (mkPtok 40 "," 13 17 44)) (MKDigits (mkPtok 30 "21" 13 8 41)) (mkPtok 39 ":" 13 11 42) (mkPtok 42 "Leg" 13 13 43) (Some (mkPtok 40 "," 13 17 44))); (mkMatchPair (mkSpan (mkPtok 30 "34" 14 8 45) (mkPtok 40 "," 14 17 48)) (MKDigits (mkPtok 30 "34" 14 8 45)) (mkPtok 39 ":" 14 11 46) (mkPtok 42 "Leg" 14 13 47) (Some (mkPtok 40 "," 14 17 48)))] (mkPtok 3 "}" 15 4 49)) (mkPtok 40 "," 15 6 50))); (mkFieldWithAttr (mkSpan (mkPtok 22 "u32" 16 4 51) (mkPtok 40 "," 16 42 56)) [] (CheckSumField (mkSpan (mkPtok 22 "u32" 16 4 51) (mkPtok 40 "," 16 42 56)) (mkChecksumFieldDecl (mkSpan (mkPtok 22 "u32" 16 4 51) (mkPtok 40 "," 16 42 56)) (Some (TyBasic (mkSpan (mkPtok 22 "u32" 16 4 51) (mkPtok 22 "u32" 16 4 51)) (mkBasicType (mkSpan (mkPtok 22 "u32" 16 4 51) (mkPtok 22 "u32" 16 4 51)) (mkPtok 22 "u32" 16 4 51)))) (mkPtok 42 "checksum" 16 8 52) (mkCalculatedFrom (mkSpan (mkPtok 5 "@calculatedFrom(" 16 17 53) (mkPtok 6 ")" 16 40 55)) (mkPtok 5 "@calculatedFrom(" 16 17 53) (mkPtok 31 """XOR""" 16 34 54) (mkPtok 6 ")" 16 40 55)) None (mkPtok 40 "," 16 42 56))))] (mkPtok 3 "}" 17 0 57))); (DPacket (mkPacketDef (mkSpan (mkPtok 35 "packet" 18 0 58) (mkPtok 3 "}" 21 0 70)) None (mkPtok 35 "packet" 18 0 58) (mkPtok 42 "Leg" 18 7 59) (mkPtok 2 "{" 18 11 60) [(mkFieldWithAttr (mkSpan (mkPtok 19 "char" 19 4 61) (mkPtok 40 "," 19 12 63)) [] (MetaField (mkSpan (mkPtok 19 "char" 19 4 61) (mkPtok 40 "," 19 12 63)) None (mkMetaDecl (mkSpan (mkPtok 19 "char" 19 4 61) (mkPtok 40 "," 19 12 63)) (TyBasic (mkSpan (mkPtok 19 "char" 19 4 61) (mkPtok 19 "char" 19 4 61)) (mkBasicType (mkSpan (mkPtok 19 "char" 19 4 61) (mkPtok 19 "char" 19 4 61)) (mkPtok 19 "char" 19 4 61))) (mkPtok 42 "px" 19 9 62) None (mkPtok 40 "," 19 12 63)))); (mkFieldWithAttr (mkSpan (mkPtok 22 "u32" 20 4 64) (mkPtok 40 "," 20 44 69)) [] (CheckSumField (mkSpan (mkPtok 22 "u32" 20 4 64) (mkPtok 40 "," 20 44 69)) (mkChecksumFieldDecl (mkSpan (mkPtok 22 "u32" 20 4 64) (mkPtok 40 "," 20 44 69)) (Some (TyBasic (mkSpan (mkPtok 22 "u32" 20 4 64) (mkPtok 22 "u32" 20 4 64)) (mkBasicType (mkSpan (mkPtok 22 "u32" 20 4 64) (mkPtok 22 "u32" 20 4 64)) (mkPtok 22 "u32" 20 4 64)))) (mkPtok 42 "checksum" 20 8 65) (mkCalculatedFrom (mkSpan (mkPtok 5 "@calculatedFrom(" 20 17 66) (mkPtok 6 ")" 20 42 68)) (mkPtok 5 "@calculatedFrom(" 20 17 66) (mkPtok 31 """CRC32""" 20 34 67) (mkPtok 6 ")" 20 42 68)) None (mkPtok 40 "," 20 44 69))))] (mkPtok 3 "}" 21 0 70))); (DPacket (mkPacketDef (mkSpan (mkPtok 35 "packet" 23 0 71) (mkPtok 3 "}" 32 0 100)) None (mkPtok 35 "packet" 23 0 71) (mkPtok 42 "Cancel" 23 7 72) (mkPtok 2 "{" 23 14 73) [(mkFieldWithAttr (mkSpan (mkPtok 14 "zchar[" 24 4 74) (mkPtok 40 "," 24 19 78)) [] (MetaField (mkSpan (mkPtok 14 "zchar[" 24 4 74) (mkPtok 40 "," 24 19 78)) None (mkMetaDecl (mkSpan (mkPtok 14 "zchar[" 24 4 74) (mkPtok 40 "," 24 19 78)) (TyFixed (mkSpan (mkPtok 14 "zchar[" 24 4 74) (mkPtok 13 "]" 24 13 76)) (mkFixedString (mkSpan (mkPtok 14 "zchar[" 24 4 74) (mkPtok 13 "]" 24 13 76)) (mkPtok 14 "zchar[" 24 4 74) (mkPtok 30 "8" 24 11 75) (mkPtok 13 "]" 24 13 76))) (mkPtok 42 "seq" 24 15 77) None (mkPtok 40 "," 24 19 78)))); (mkFieldWithAttr (mkSpan (mkPtok 9 "@tag(" 25 4 79) (mkPtok 40 "," 26 22 85)) [(FATag (mkSpan (mkPtok 9 "@tag(" 25 4 79) (mkPtok 6 ")" 25 12 81)) (mkTagAttr (mkSpan (mkPtok 9 "@tag(" 25 4 79) (mkPtok 6 ")" 25 12 81)) (mkPtok 9 "@tag(" 25 4 79) (mkPtok 30 "1" 25 10 80) (mkPtok 6 ")" 25 12 81)))] (MetaField (mkSpan (mkPtok 36 "repeat" 26 4 82) (mkPtok 40 "," 26 22 85)) (Some (mkPtok 36 "repeat" 26 4 82)) (mkMetaDecl (mkSpan (mkPtok 19 "char" 26 11 83) (mkPtok 40 "," 26 22 85)) (TyBasic (mkSpan (mkPtok 19 "char" 26 11 83) (mkPtok 19 "char" 26 11 83)) (mkBasicType (mkSpan (mkPtok 19 "char" 26 11 83) (mkPtok 19 "char" 26 11 83)) (mkPtok 19 "char" 26 11 83))) (mkPtok 42 "flags" 26 16 84) None (mkPtok 40 "," 26 22 85)))); (mkFieldWithAttr (mkSpan (mkPtok 9 "@tag(" 27 4 86) (mkPtok 40 "," 27 19 90)) [(FATag (mkSpan (mkPtok 9 "@tag(" 27 4 86) (mkPtok 6 ")" 27 12 88)) (mkTagAttr (mkSpan (mkPtok 9 "@tag(" 27 4 86) (mkPtok 6 ")" 27 12 88)) (mkPtok 9 "@tag(" 27 4 86) (mkPtok 30 "7" 27 10 87) (mkPtok 6 ")" 27 12 88)))] (ObjectField (mkSpan (mkPtok 42 "Side" 27 14 89) (mkPtok 40 "," 27 19 90)) None (mkPtok 42 "Side" 27 14 89) None None (mkPtok 40 "," 27 19 90))); (mkFieldWithAttr (mkSpan (mkPtok 42 "Sub" 28 4 91) (mkPtok 40 "," 31 6 99)) [] (InerObjectField (mkSpan (mkPtok 42 "Sub" 28 4 91) (mkPtok 40 "," 31 6 99)) None (InerObjectDecl (mkSpan (mkPtok 42 "Sub" 28 4 91) (mkPtok 3 "}" 31 4 98)) (mkPtok 42 "Sub" 28 4 91) (mkPtok 2 "{" 28 8 92) [(ObjectField (mkSpan (mkPtok 42 "Text" 29 8 93) (mkPtok 40 "," 29 13 94)) None (mkPtok 42 "Text" 29 8 93) None None (mkPtok 40 "," 29 13 94)); (ObjectField (mkSpan (mkPtok 42 "Text" 30 8 95) (mkPtok 40 "," 30 17 97)) None (mkPtok 42 "Text" 30 8 95) (Some (mkPtok 42 "qty" 30 13 96)) None (mkPtok 40 "," 30 17 97))] (mkPtok 3 "}" 31 4 98)) (mkPtok 40 "," 31 6 99)))] (mkPtok 3 "}" 32 0 100))); (DPacket (mkPacketDef (mkSpan (mkPtok 35 "packet" 34 0 102) (mkPtok 3 "}" 40 0 127)) None (mkPtok 35 "packet" 34 0 102) (mkPtok 42 "Party" 34 7 103) (mkPtok 2 "{" 34 13 104) [(mkFieldWithAttr (mkSpan (mkPtok 32 "@rightPad" 35 4 105) (mkPtok 40 "," 35 39 113)) [(FAPadding (mkSpan (mkPtok 32 "@rightPad" 35 4 105) (mkPtok 6 ")" 35 16 107)) (mkPaddingAttr (mkSpan (mkPtok 32 "@rightPad" 35 4 105) (mkPtok 6 ")" 35 16 107)) (mkPtok 32 "@rightPad" 35 4 105) (mkPtok 8 "(" 35 14 106) None (mkPtok 6 ")" 35 16 107)))] (MetaField (mkSpan (mkPtok 14 "zchar[" 35 18 108) (mkPtok 40 "," 35 39 113)) None (mkMetaDecl (mkSpan (mkPtok 14 "zchar[" 35 18 108) (mkPtok 40 "," 35 39 113)) (TyFixed (mkSpan (mkPtok 14 "zchar[" 35 18 108) (mkPtok 13 "]" 35 27 110)) (mkFixedString (mkSpan (mkPtok 14 "zchar[" 35 18 108) (mkPtok 13 "]" 35 27 110)) (mkPtok 14 "zchar[" 35 18 108) (mkPtok 30 "3" 35 25 109) (mkPtok 13 "]" 35 27 110))) (mkPtok 42 "leaves" 35 29 111) (Some (mkPtok 43 "``" 35 36 112)) (mkPtok 40 "," 35 39 113)))); (mkFieldWithAttr (mkSpan (mkPtok 12 "char[" 36 4 114) (mkPtok 40 "," 36 18 118)) [] (MetaField (mkSpan (mkPtok 12 "char[" 36 4 114) (mkPtok 40 "," 36 18 118)) None (mkMetaDecl (mkSpan (mkPtok 12 "char[" 36 4 114) (mkPtok 40 "," 36 18 118)) (TyFixed (mkSpan (mkPtok 12 "char[" 36 4 114) (mkPtok 13 "]" 36 12 116)) (mkFixedString (mkSpan (mkPtok 12 "char[" 36 4 114) (mkPtok 13 "]" 36 12 116)) (mkPtok 12 "char[" 36 4 114) (mkPtok 30 "3" 36 10 115) (mkPtok 13 "]" 36 12 116))) (mkPtok 42 "qty" 36 14 117) None (mkPtok 40 "," 36 18 118)))); (mkFieldWithAttr (mkSpan (mkPtok 25 "int16" 37 4 119) (mkPtok 40 "," 37 13 121)) [] (MetaField (mkSpan (mkPtok 25 "int16" 37 4 119) (mkPtok 40 "," 37 13 121)) None (mkMetaDecl (mkSpan (mkPtok 25 "int16" 37 4 119) (mkPtok 40 "," 37 13 121)) (TyBasic (mkSpan (mkPtok 25 "int16" 37 4 119) (mkPtok 25 "int16" 37 4 119)) (mkBasicType (mkSpan (mkPtok 25 "int16" 37 4 119) (mkPtok 25 "int16" 37 4 119)) (mkPtok 25 "int16" 37 4 119))) (mkPtok 42 "px" 37 10 120) None (mkPtok 40 "," 37 13 121)))); (mkFieldWithAttr (mkSpan (mkPtok 42 "Side" 38 4 122) (mkPtok 40 "," 38 16 124)) [] (ObjectField (mkSpan (mkPtok 42 "Side" 38 4 122) (mkPtok 40 "," 38 16 124)) None (mkPtok 42 "Side" 38 4 122) (Some (mkPtok 42 "ref_id" 38 9 123)) None (mkPtok 40 "," 38 16 124))); (mkFieldWithAttr (mkSpan (mkPtok 42 "Text" 39 4 125) (mkPtok 40 "," 39 9 126)) [] (ObjectField (mkSpan (mkPtok 42 "Text" 39 4 125) (mkPtok 40 "," 39 9 126)) None (mkPtok 42 "Text" 39 4 125) None None (mkPtok 40 "," 39 9 126)))] (mkPtok 3 "}" 40 0 127))); (DMeta (mkMetaDef (mkSpan (mkPtok 37 "MetaData" 41 0 128) (mkPtok 3 "}" 44 0 139)) (mkPtok 37 "MetaData" 41 0 128) (mkPtok 42 "Fields" 41 9 129) (mkPtok 2 "{" 41 16 130) [(MIDecl (mkMetaDecl (mkSpan (mkPtok 16 "char[]" 42 4 131) (mkPtok 40 "," 42 16 133)) (TyDynamic (mkSpan (mkPtok 16 "char[]" 42 4 131) (mkPtok 16 "char[]" 42 4 131)) (mkDynamicString (mkSpan (mkPtok 16 "char[]" 42 4 131) (mkPtok 16 "char[]" 42 4 131)) (mkPtok 16 "char[]" 42 4 131))) (mkPtok 42 "Text" 42 11 132) None (mkPtok 40 "," 42 16 133))); (MIDecl (mkMetaDecl (mkSpan (mkPtok 12 "char[" 43 4 134) (mkPtok 40 "," 43 20 138)) (TyFixed (mkSpan (mkPtok 12 "char[" 43 4 134) (mkPtok 13 "]" 43 13 136)) (mkFixedString (mkSpan (mkPtok 12 "char[" 43 4 134) (mkPtok 13 "]" 43 13 136)) (mkPtok 12 "char[" 43 4 134) (mkPtok 30 "32" 43 10 135) (mkPtok 13 "]" 43 13 136))) (mkPtok 42 "Side" 43 15 137) None (mkPtok 40 "," 43 20 138)))] (mkPtok 3 "}" 44 0 139))); (DPacket (mkPacketDef (mkSpan (mkPtok 35 "packet" 46 0 140) (mkPtok 3 "}" 48 0 146)) None (mkPtok 35 "packet" 46 0 140) (mkPtok 42 "Entry" 46 7 141) (mkPtok 2 "{" 46 13 142) [(mkFieldWithAttr (mkSpan (mkPtok 23 "u64" 47 4 143) (mkPtok 40 "," 47 11 145)) [] (MetaField (mkSpan (mkPtok 23 "u64" 47 4 143) (mkPtok 40 "," 47 11 145)) None (mkMetaDecl (mkSpan (mkPtok 23 "u64" 47 4 143) (mkPtok 40 "," 47 11 145)) (TyBasic (mkSpan (mkPtok 23 "u64" 47 4 143) (mkPtok 23 "u64" 47 4 143)) (mkBasicType (mkSpan (mkPtok 23 "u64" 47 4 143) (mkPtok 23 "u64" 47 4 143)) (mkPtok 23 "u64" 47 4 143))) (mkPtok 42 "sz" 47 8 144) None (mkPtok 40 "," 47 11 145))))] (mkPtok 3 "}" 48 0 146)))]).
-Eval vm_compute in ("<<<W192_alias_short>>>" ++ sh_escaped (render (rw_alias_short t192)) "").
-Eval vm_compute in ("<<<W192_alias_long>>>" ++ sh_escaped (render (rw_alias_long t192)) "").
-Eval vm_compute in ("<<<W192_alias_long_opts>>>" ++ sh_escaped (render (rw_alias_long_opts t192)) "").
-Eval vm_compute in ("<<<W192_zchar>>>" ++ sh_escaped (render (rw_zchar t192)) "").
-Eval vm_compute in ("<<<W192_drop_default_pad>>>" ++ sh_escaped (render (rw_drop_default_pad t192)) "").
-Eval vm_compute in ("<<<W192_add_default_pad>>>" ++ sh_escaped (render (rw_add_default_pad t192)) "").
-Eval vm_compute in ("<<<W192_prefix_attr>>>" ++ sh_escaped (render (rw_prefix_attr t192)) "").
-Eval vm_compute in ("<<<W192_default_options>>>" ++ sh_escaped (render (rw_default_options t192)) "").
-Eval vm_compute in ("<<<W192_expand_keys>>>" ++ sh_escaped (render (rw_expand_keys t192)) "").
-Eval vm_compute in ("<<<W192_inline_meta>>>" ++ sh_escaped (render (rw_inline_meta t192)) "").
-Eval vm_compute in ("<<<W192_seps_all>>>" ++ sh_escaped (render (rw_seps_all t192)) "").
-Eval vm_compute in ("<<<W192_seps_none>>>" ++ sh_escaped (render (rw_seps_none t192)) "").
-Eval vm_compute in ("<<<W192_drop_docs>>>" ++ sh_escaped (render (rw_drop_docs t192)) "").
-Definition t503 : pt := (mkPacket (mkPtok 35 "packet" 1 0 0) (Some (mkPtok 3 "}" 1 75 30)) [(DPacket (mkPacketDef (mkSpan (mkPtok 35 "packet" 1 0 0) (mkPtok 3 "}" 1 17 6)) None (mkPtok 35 "packet" 1 0 0) (mkPtok 42 "B" 1 7 1) (mkPtok 2 "{" 1 9 2) [(mkFieldWithAttr (mkSpan (mkPtok 20 "u8" 1 11 3) (mkPtok 40 "," 1 15 5)) [] (MetaField (mkSpan (mkPtok 20 "u8" 1 11 3) (mkPtok 40 "," 1 15 5)) None (mkMetaDecl (mkSpan (mkPtok 20 "u8" 1 11 3) (mkPtok 40 "," 1 15 5)) (TyBasic (mkSpan (mkPtok 20 "u8" 1 11 3) (mkPtok 20 "u8" 1 11 3)) (mkBasicType (mkSpan (mkPtok 20 "u8" 1 11 3) (mkPtok 20 "u8" 1 11 3)) (mkPtok 20 "u8" 1 11 3))) (mkPtok 42 "x" 1 14 4) None (mkPtok 40 "," 1 15 5))))] (mkPtok 3 "}" 1 17 6))); (DPacket (mkPacketDef (mkSpan (mkPtok 34 "root" 1 19 7) (mkPtok 3 "}" 1 75 30)) (Some (mkPtok 34 "root" 1 19 7)) (mkPtok 35 "packet" 1 24 8) (mkPtok 42 "A" 1 31 9) (mkPtok 2 "{" 1 33 10) [(mkFieldWithAttr (mkSpan (mkPtok 20 "u8" 1 35 11) (mkPtok 40 "," 1 39 13)) [] (MetaField (mkSpan (mkPtok 20 "u8" 1 35 11) (mkPtok 40 "," 1 39 13)) None (mkMetaDecl (mkSpan (mkPtok 20 "u8" 1 35 11) (mkPtok 40 "," 1 39 13)) (TyBasic (mkSpan (mkPtok 20 "u8" 1 35 11) (mkPtok 20 "u8" 1 35 11)) (mkBasicType (mkSpan (mkPtok 20 "u8" 1 35 11) (mkPtok 20 "u8" 1 35 11)) (mkPtok 20 "u8" 1 35 11))) (mkPtok 42 "k" 1 38 12) None (mkPtok 40 "," 1 39 13)))); (mkFieldWithAttr (mkSpan (mkPtok 38 "match" 1 41 14) (mkPtok 40 "," 1 73 29)) [] (MatchField (mkSpan (mkPtok 38 "match" 1 41 14) (mkPtok 40 "," 1 73 29)) (mkMatchFieldDecl (mkSpan (mkPtok 38 "match" 1 41 14) (mkPtok 3 "}" 1 72 28)) (mkPtok 38 "match" 1 41 14) (mkPtok 42 "k" 1 47 15) (mkPtok 17 "as" 1 49 16) (mkPtok 42 "m" 1 52 17) (mkPtok 2 "{" 1 54 18) [(mkMatchPair (mkSpan (mkPtok 18 "[" 1 56 19) (mkPtok 42 "B" 1 70 27)) (MKList (mkKeyList (mkSpan (mkPtok 18 "[" 1 56 19) (mkPtok 13 "]" 1 66 25)) (mkPtok 18 "[" 1 56 19) (mkPtok 30 "1" 1 57 20) [((mkPtok 40 "," 1 58 21), (mkPtok 31 """a""" 1 60 22)); ((mkPtok 40 "," 1 63 23), (mkPtok 30 "2" 1 65 24))] (mkPtok 13 "]" 1 66 25))) (mkPtok 39 ":" 1 68 26) (mkPtok 42 "B" 1 70 27) None)] (mkPtok 3 "}" 1 72 28)) (mkPtok 40 "," 1 73 29)))] (mkPtok 3 "}" 1 75 30)))]).
-Eval vm_compute in ("<<<W503_alias_short>>>" ++ sh_escaped (render (rw_alias_short t503)) "").
-Eval vm_compute in ("<<<W503_alias_long>>>" ++ sh_escaped (render (rw_alias_long t503)) "").
-Eval vm_compute in ("<<<W503_alias_long_opts>>>" ++ sh_escaped (render (rw_alias_long_opts t503)) "").
-Eval vm_compute in ("<<<W503_zchar>>>" ++ sh_escaped (render (rw_zchar t503)) "").
-Eval vm_compute in ("<<<W503_drop_default_pad>>>" ++ sh_escaped (render (rw_drop_default_pad t503)) "").
-Eval vm_compute in ("<<<W503_add_default_pad>>>" ++ sh_escaped (render (rw_add_default_pad t503)) "").
-Eval vm_compute in ("<<<W503_prefix_attr>>>" ++ sh_escaped (render (rw_prefix_attr t503)) "").
-Eval vm_compute in ("<<<W503_default_options>>>" ++ sh_escaped (render (rw_default_options t503)) "").
-Eval vm_compute in ("<<<W503_expand_keys>>>" ++ sh_escaped (render (rw_expand_keys t503)) "").
-Eval vm_compute in ("<<<W503_inline_meta>>>" ++ sh_escaped (render (rw_inline_meta t503)) "").
-Eval vm_compute in ("<<<W503_seps_all>>>" ++ sh_escaped (render (rw_seps_all t503)) "").
-Eval vm_compute in ("<<<W503_seps_none>>>" ++ sh_escaped (render (rw_seps_none t503)) "").
-Eval vm_compute in ("<<<W503_drop_docs>>>" ++ sh_escaped (render (rw_drop_docs t503)) "").
+Definition t57 : pt := (mkPacket (mkPtok 34 "root" 1 0 0) (Some (mkPtok 3 "}" 4 0 12)) [(DPacket (mkPacketDef (mkSpan (mkPtok 34 "root" 1 0 0) (mkPtok 3 "}" 4 0 12)) (Some (mkPtok 34 "root" 1 0 0)) (mkPtok 35 "packet" 1 5 1) (mkPtok 42 "SimpleMessage" 1 12 2) (mkPtok 2 "{" 1 26 3) [(mkFieldWithAttr (mkSpan (mkPtok 21 "uint16" 2 4 4) (mkPtok 40 "," 2 25 7)) [] (MetaField (mkSpan (mkPtok 21 "uint16" 2 4 4) (mkPtok 40 "," 2 25 7)) None (mkMetaDecl (mkSpan (mkPtok 21 "uint16" 2 4 4) (mkPtok 40 "," 2 25 7)) (TyBasic (mkSpan (mkPtok 21 "uint16" 2 4 4) (mkPtok 21 "uint16" 2 4 4)) (mkBasicType (mkSpan (mkPtok 21 "uint16" 2 4 4) (mkPtok 21 "uint16" 2 4 4)) (mkPtok 21 "uint16" 2 4 4))) (mkPtok 42 "MsgType" 2 11 5) (Some (mkPtok 43 (string_of_bytes [96; 230; 182; 136; 230; 129; 175; 231; 177; 187; 229; 158; 139; 96]%N) 2 19 6)) (mkPtok 40 "," 2 25 7)))); (mkFieldWithAttr (mkSpan (mkPtok 15 "string" 3 4 8) (mkPtok 40 "," 3 32 11)) [] (MetaField (mkSpan (mkPtok 15 "string" 3 4 8) (mkPtok 40 "," 3 32 11)) None (mkMetaDecl (mkSpan (mkPtok 15 "string" 3 4 8) (mkPtok 40 "," 3 32 11)) (TyDynamic (mkSpan (mkPtok 15 "string" 3 4 8) (mkPtok 15 "string" 3 4 8)) (mkDynamicString (mkSpan (mkPtok 15 "string" 3 4 8) (mkPtok 15 "string" 3 4 8)) (mkPtok 15 "string" 3 4 8))) (mkPtok 42 "JsonBody" 3 11 9) (Some (mkPtok 43 (string_of_bytes [96; 74; 115; 111; 110; 229; 173; 151; 231; 172; 166; 228; 184; 178; 230; 182; 136; 230; 129; 175; 228; 189; 147; 96]%N) 3 20 10)) (mkPtok 40 "," 3 32 11))))] (mkPtok 3 "}" 4 0 12)))]).
+Eval vm_compute in ("<<<W57_alias_short>>>" ++ sh_escaped (render (rw_alias_short t57)) "").
+Eval vm_compute in ("<<<W57_alias_long>>>" ++ sh_escaped (render (rw_alias_long t57)) "").
+Eval vm_compute in ("<<<W57_alias_long_opts>>>" ++ sh_escaped (render (rw_alias_long_opts t57)) "").
+Eval vm_compute in ("<<<W57_zchar>>>" ++ sh_escaped (render (rw_zchar t57)) "").
+Eval vm_compute in ("<<<W57_drop_default_pad>>>" ++ sh_escaped (render (rw_drop_default_pad t57)) "").
+Eval vm_compute in ("<<<W57_add_default_pad>>>" ++ sh_escaped (render (rw_add_default_pad t57)) "").
+Eval vm_compute in ("<<<W57_prefix_attr>>>" ++ sh_escaped (render (rw_prefix_attr t57)) "").
+Eval vm_compute in ("<<<W57_default_options>>>" ++ sh_escaped (render (rw_default_options t57)) "").
+Eval vm_compute in ("<<<W57_expand_keys>>>" ++ sh_escaped (render (rw_expand_keys t57)) "").
+Eval vm_compute in ("<<<W57_inline_meta>>>" ++ sh_escaped (render (rw_inline_meta t57)) "").
+Eval vm_compute in ("<<<W57_seps_all>>>" ++ sh_escaped (render (rw_seps_all t57)) "").
+Eval vm_compute in ("<<<W57_seps_none>>>" ++ sh_escaped (render (rw_seps_none t57)) "").
+Eval vm_compute in ("<<<W57_drop_docs>>>" ++ sh_escaped (render (rw_drop_docs t57)) "").
